@@ -530,7 +530,39 @@ def r04_9(chk):
     chk.floor("R04.9", 2, "two deepcopy implementations")
 
 
+def r04_10(chk):
+    chk.rule("R04.10", "coordinates are stored where they can be stored: in the Sequence classes every `self.<name> = ...` whose <name> resolves (MRO) to a property has a setter -- assigning to a getter-only property (annotation_offset, derived from the view) raises AttributeError exactly when the option carrying the offset is used")
+    n = 0
+    for rel, names in ((OLD, ("Sequence", "NucleicAcidSequence", "DnaSequence", "RnaSequence", "ProteinSequence")), (NEW, ("Sequence", "DnaSequence", "RnaSequence", "ProteinSequence"))):
+        m = chk.repo.module(rel)
+        for cname in names:
+            ci = m.classes.get(cname)
+            if ci is None:
+                continue
+            seen = set()
+            for base in ci.mro():
+                if getattr(base, "module", None) is not m:
+                    continue
+                for mname, fn in base.methods.items():
+                    if not isinstance(fn, ast.FunctionDef) or id(fn) in seen:
+                        continue
+                    seen.add(id(fn))
+                    for st in walk_no_nested(fn):
+                        tg = st.targets if isinstance(st, ast.Assign) else [st.target] if isinstance(st, (ast.AugAssign, ast.AnnAssign)) else []
+                        for t in tg:
+                            if isinstance(t, ast.Attribute) and isinstance(t.value, ast.Name) and t.value.id == "self":
+                                rp = ci.resolve_property(t.attr)
+                                if rp is None:
+                                    continue
+                                n += 1
+                                pd = rp[1] if isinstance(rp, tuple) else rp
+                                has_set = bool(pd.get("set")) if isinstance(pd, dict) else False
+                                chk.decide(has_set, "R04.10", key(m, f"{base.name}.{mname}", f"self.{t.attr} assignable"), m.loc(st), f"property {t.attr} has a setter", f"`{norm(st)[:60]}` assigns to the property `{t.attr}`, which has no setter (resolved for {cname}): the statement always raises AttributeError, so {mname}() cannot be used with that option")
+    chk.floor("R04.10", 2, "property stores in the Sequence classes")
+
+
 def run(chk):
+    r04_10(chk)
     r04_9(chk)
     r04_8(chk)
     r04_7(chk)
